@@ -4,67 +4,362 @@ package lab
 
 import (
 	"encoding/json"
+	"fmt"
+	"net"
+	"strings"
 	"testing"
+	"time"
 
+	"github.com/cenkalti/rain/v2/torrent"
 	"github.com/cenkalti/rain/v2/zzverif/core"
+	"github.com/cenkalti/rain/v2/zzverif/refcodec"
 )
 
-type dlArg struct {
-	Layout int  `json:"layout"`
-	Seq    bool `json:"seq"`
+// C10 — completion with an honest full source. Layout lattice x picker mode x source mix, each under the
+// eager fair schedule (bounded liveness) and with deviations by *other* parties.
+
+type c10Arg struct {
+	Files  []int  `json:"files"` // lengths in bytes; negative = padding file
+	PL     int    `json:"pl"`
+	Single bool   `json:"single"`
+	Seq    bool   `json:"seq"`
+	Source string `json:"src"` // peer | web | both | rain (a real rain seeding session, MSE negotiated)
+	Adv    bool   `json:"adv"` // a second, misbehaving peer is present (deviation alphabet enabled)
 }
 
-var dlLayouts = []Layout{
-	LayoutSingle(32768, 3*32768+1000),
-	LayoutMulti(32768, 40000, 30000, 20000),
+func (a c10Arg) String() string {
+	return fmt.Sprintf("files=%v pl=%d single=%v seq=%v src=%s adv=%v", a.Files, a.PL, a.Single, a.Seq, a.Source, a.Adv)
 }
 
-func init() {
-	Register("dl", func() *Scenario {
-		sc := &Scenario{Name: "dl", Horizon: 300}
-		sc.Setup = func(w *World) {
-			var a dlArg
-			json.Unmarshal(w.Arg, &a)
-			w.OpenSession()
-			g := Gen(dlLayouts[a.Layout])
-			w.AddTorrent(g, nil)
-			p1 := w.NewPeer("p1", "10.0.0.1", 5001)
-			w.Vars["std"] = &StdOpts{
-				Behaviour: map[string]*PeerBehaviour{"p1": {Honest: true}},
-				Script: []*ScriptItem{
-					{Label: "start", Do: func(w *World) { w.CmdStart() }},
-					{Label: "connect p1", When: func(w *World) bool { return w.Listening() }, Do: func(w *World) {
-						if err := p1.ConnectIn(w.Tor.VerifState().Port, g.InfoHash); err != nil {
-							w.Failf("lab.connect", "connect refused: %v", err)
-						}
-					}},
-				},
-			}
-		}
-		sc.Actions = StdActions
-		sc.Final = func(w *World) {
-			st := w.Tor.VerifState()
-			if st.Status != "Seeding" {
-				w.Failf("C10.incomplete", "download did not complete: status %s, have %x", st.Status, st.Bitfield)
-				return
-			}
-			if ok, why := w.FilesEqualTruth(); !ok {
-				w.Failf("C10.content", "Seeding but %s", why)
-			}
-		}
-		sc.Outcome = func(w *World) string { return w.Tor.VerifState().Status }
-		return sc
-	})
+func (a c10Arg) layout() Layout {
+	if a.Single {
+		return LayoutSingle(a.PL, a.Files[0])
+	}
+	return LayoutMulti(a.PL, a.Files...)
 }
+
+// c10Layouts enumerates the 16 KiB-scaled layout lattice.
+func c10Layouts(thorough bool) []c10Arg {
+	const u = 16384
+	var out []c10Arg
+	pls := []int{u, 2 * u, 3 * u}
+	one := []int{1, u - 1, u, u + 1, 2 * u, 3*u + 1000}
+	for _, pl := range pls {
+		for _, n := range one {
+			out = append(out, c10Arg{Files: []int{n}, PL: pl, Single: true})
+			out = append(out, c10Arg{Files: []int{n}, PL: pl})
+		}
+		two := []int{0, u, u + 1, 2 * u}
+		for _, a := range two {
+			for _, b := range two {
+				if a+b == 0 {
+					continue
+				}
+				out = append(out, c10Arg{Files: []int{a, b}, PL: pl})
+				if b > 0 {
+					out = append(out, c10Arg{Files: []int{a, -b}, PL: pl}) // trailing padding
+				}
+				if a > 0 && b > 0 {
+					out = append(out, c10Arg{Files: []int{-a, b}, PL: pl}) // leading padding
+				}
+			}
+		}
+		// file | pad | file, including padding that starts at a block start and whole-piece padding
+		for _, f := range []int{u, u + 1, 2*u - 100} {
+			for _, p := range []int{100, u - 1, u, 2 * u} {
+				out = append(out, c10Arg{Files: []int{f, -p, u + 5}, PL: pl})
+			}
+		}
+	}
+	if !thorough {
+		// quick: every third layout, always keeping the padding-heavy tail of each piece length
+		var q []c10Arg
+		for i, a := range out {
+			if i%3 == 0 || (len(a.Files) == 3) {
+				q = append(q, a)
+			}
+		}
+		out = q
+	}
+	return out
+}
+
+func init() { Register("c10", mkC10) }
+
+func mkC10() *Scenario {
+	sc := &Scenario{Name: "c10", Horizon: 900}
+	var arg c10Arg
+	var p1, p2 *Peer
+	var ws *WebSeed
+	var seeder *torrent.Torrent
+	sc.Setup = func(w *World) {
+		json.Unmarshal(w.Arg, &arg)
+		l := arg.layout()
+		if arg.Source == "web" || arg.Source == "both" {
+			l.Webseeds = []string{"http://10.9.9.9/ws/"}
+		}
+		g := Gen(l)
+		w.Cfg.WebseedRetryInterval = time.Minute
+		if arg.Source == "rain" {
+			w.Cfg.DisableOutgoingEncryption = false
+		}
+		w.OpenSession()
+		opt := &torrent.AddTorrentOptions{Stopped: true, Sequential: arg.Seq}
+		w.AddTorrent(g, opt)
+		o := &StdOpts{Behaviour: map[string]*PeerBehaviour{}, IdleAdvance: 0}
+		o.Script = append(o.Script, &ScriptItem{Label: "start", Do: func(w *World) { w.CmdStart() }})
+		if arg.Source == "web" || arg.Source == "both" {
+			ws = w.NewWebSeed("10.9.9.9", g)
+		}
+		if arg.Source == "peer" || arg.Source == "both" {
+			p1 = w.NewPeer("p1", "10.0.0.1", 5001)
+			o.Behaviour["p1"] = &PeerBehaviour{Honest: true}
+			o.Script = append(o.Script, &ScriptItem{Label: "connect p1", When: func(w *World) bool { return w.Listening() }, Do: func(w *World) {
+				if err := p1.ConnectIn(w.Tor.VerifState().Port, g.InfoHash); err != nil {
+					w.Failf("lab.connect", "connect refused: %v", err)
+				}
+			}})
+		}
+		if arg.Source == "rain" {
+			// a second real torrent in the same session holding the complete data; the leecher dials it
+			leech := w.Tor
+			seedStore := map[string][]byte{}
+			for fi, f := range g.L.Files {
+				if !f.Pad {
+					seedStore[g.StoragePath(fi)] = g.FileData[fi]
+				}
+			}
+			w.Vars["preseed"] = seedStore
+			st, err := w.S.AddTorrent(bytesReader(g.MetaInfo), &torrent.AddTorrentOptions{Stopped: true, ID: "seeder"})
+			if err != nil {
+				core.HarnessError("add seeder: %v", err)
+			}
+			seeder = st
+			w.Tors = append(w.Tors, st)
+			w.Quiesce()
+			w.Store.Mutate("seeder", func(files map[string]*MemFile) {
+				for n, d := range seedStore {
+					files[n] = &MemFile{Name: n, Data: append([]byte{}, d...)}
+				}
+			})
+			if len(w.Store.FileNames("seeder")) == 0 {
+				// storage for the seeder does not exist until GetStorage ran (it did at add time); create files directly
+				core.HarnessError("seeder storage missing")
+			}
+			o.Script = append(o.Script,
+				&ScriptItem{Label: "start seeder", Do: func(w *World) { w.Launch("StartSeeder", func() any { return seeder.Start() }) }},
+				&ScriptItem{Label: "addpeer seeder", When: func(w *World) bool {
+					return seeder.VerifState().Status == "Seeding" && seeder.VerifState().HasAcceptor && leech.VerifState().Status == "Downloading"
+				}, Do: func(w *World) {
+					sp := seeder.VerifState().Port
+					addr := fmt.Sprintf("10.0.0.50:%d", sp)
+					w.RouteToListener(addr, sp, &net.TCPAddr{IP: net.IPv4(10, 0, 0, 60), Port: 40001})
+					w.Launch("AddPeer", func() any { return leech.AddPeer(addr) })
+				}})
+		}
+		if arg.Adv {
+			p2 = w.NewPeer("p2", "10.0.0.2", 5002)
+			o.Behaviour["p2"] = &PeerBehaviour{Honest: true}
+			o.Script = append(o.Script, &ScriptItem{Label: "connect p2", When: func(w *World) bool { return w.Listening() }, Do: func(w *World) {
+				p2.ConnectIn(w.Tor.VerifState().Port, g.InfoHash)
+			}})
+			o.Extra = func(w *World) []Action {
+				var a []Action
+				if p2.Connected() && p2.Announced {
+					if len(p2.Requests) > 0 {
+						a = append(a, Action{Label: "adv:p2:corrupt", Do: func(w *World) {
+							if r, ok := p2.PopRequest(); ok {
+								p2.Serve(w.G, r, true)
+							}
+						}})
+						a = append(a, Action{Label: "adv:p2:stall", Do: func(w *World) {
+							// p2 never answers again; the snub timer (RequestTimeout) must let the download go on elsewhere
+							o.Behaviour["p2"].Honest = false
+							w.Advance(25 * time.Second)
+						}})
+					}
+					a = append(a, Action{Label: "adv:p2:choke", Do: func(w *World) { p2.Send(refcodec.Simple(refcodec.MsgChoke)); p2.Requests = nil }})
+					a = append(a, Action{Label: "adv:p2:disconnect", Do: func(w *World) { p2.Close() }})
+				}
+				if ws != nil {
+					a = append(a, Action{Label: "adv:web:500-then-ok", Do: func(w *World) { ws.SetMode("500"); w.Vars["webfail"] = true }})
+					a = append(a, Action{Label: "adv:web:drop-then-ok", Do: func(w *World) { ws.SetMode("drop"); w.Vars["webfail"] = true }})
+				}
+				return a
+			}
+			// after a web seed failure it recovers; the client's retry comes after a (virtual) minute
+			o.IdleAdvance, o.MaxIdle = 61*time.Second, 3
+		}
+		w.Vars["std"] = o
+	}
+	sc.Actions = func(w *World) []Action {
+		if ws != nil {
+			if _, failed := w.Vars["webfail"]; failed && ws.NumRequests() > 0 {
+				// the failing answer was delivered at least once: the server is healthy again
+				if n, _ := w.Vars["webfailAt"].(int); n == 0 {
+					w.Vars["webfailAt"] = ws.NumRequests()
+				} else if ws.NumRequests() > n {
+					ws.SetMode("ok")
+				}
+			}
+		}
+		acts := StdActions(w)
+		if len(acts) == 0 && ws != nil && w.Tor.VerifState().Status == "Downloading" {
+			n, _ := w.Vars["idle"].(int)
+			if n < 3 {
+				ws.SetMode("ok")
+				return []Action{{Label: "advance:61s", Do: func(w *World) { w.Vars["idle"] = n + 1; w.Advance(61 * time.Second) }}}
+			}
+		}
+		return acts
+	}
+	sc.Check = func(w *World) {
+		integrityCheck(w, "C10")
+		// the honest source is never banned
+		s := w.Tor.VerifState()
+		if p1 != nil {
+			for _, ip := range s.BannedIPs {
+				if ip == p1.Addr.IP.String() {
+					w.Failf("C10.honest-seed-banned", "the honest seed %s was banned (a piece it served correctly failed the hash check)", ip)
+				}
+			}
+		}
+		c10IdlePeer(w, arg, p1)
+	}
+	sc.Final = func(w *World) {
+		s := w.Tor.VerifState()
+		if s.Status != "Seeding" {
+			src := ""
+			if p1 != nil {
+				src = fmt.Sprintf(" p1: connected=%v outstanding=%d", p1.Connected(), len(p1.Requests))
+			}
+			w.Failf("C10.incomplete."+c10Class(arg), "an honest full source was reachable but the download ended in status %s with bitfield %x (done=%v writing=%v downloads=%d error=%q)%s", s.Status, s.Bitfield, s.PieceDone, s.PieceWriting, s.PieceDownloaders, s.LastError, src)
+			return
+		}
+		if ok, why := w.FilesEqualTruth(); !ok {
+			w.Failf("C10.content", "Seeding but %s", why)
+		}
+	}
+	sc.Outcome = func(w *World) string { return w.Tor.VerifState().Status }
+	return sc
+}
+
+// c10Class groups layouts by the feature that matters for a completion failure.
+func c10Class(a c10Arg) string {
+	l := a.layout()
+	g := Gen(l)
+	// does some piece consist of padding only?
+	off := 0
+	padOnly := false
+	type span struct{ s, e int; pad bool }
+	var spans []span
+	for _, f := range l.Files {
+		spans = append(spans, span{off, off + f.Len, f.Pad})
+		off += f.Len
+	}
+	for i := 0; i < g.NumPieces; i++ {
+		ps, pe := i*l.PieceLen, min((i+1)*l.PieceLen, len(g.Data))
+		data := 0
+		for _, sp := range spans {
+			a, b := max(ps, sp.s), min(pe, sp.e)
+			if a < b && !sp.pad {
+				data += b - a
+			}
+		}
+		if data == 0 {
+			padOnly = true
+		}
+	}
+	hasPad := false
+	for _, f := range l.Files {
+		if f.Pad && f.Len > 0 {
+			hasPad = true
+		}
+	}
+	switch {
+	case padOnly:
+		return "padding-only-piece"
+	case hasPad:
+		return "padding." + a.Source
+	default:
+		return "plain." + a.Source
+	}
+}
+
+// c10IdlePeer: at a drained point, no idle unchoked peer holding a needed unrequested piece is left without a request.
+func c10IdlePeer(w *World, arg c10Arg, p1 *Peer) {
+	if p1 == nil || arg.Source != "peer" {
+		return
+	}
+	s := w.Tor.VerifState()
+	if s.Status != "Downloading" || !p1.Connected() || !p1.Announced || !p1.GotHS {
+		return
+	}
+	for ti := range w.Tors {
+		if len(w.Ready(ti)) > 0 {
+			return
+		}
+	}
+	if len(p1.Requests) > 0 || p1.Conn.Pending() > 0 {
+		return
+	}
+	for _, p := range w.Peers {
+		if len(p.Requests) > 0 {
+			return // some request is outstanding elsewhere; the needed piece may be that one
+		}
+	}
+	if len(w.Store.PendingOps()) > 0 {
+		return
+	}
+	for i := 0; i < w.G.NumPieces; i++ {
+		if i < len(s.PieceDone) && !s.PieceDone[i] && !s.PieceWriting[i] {
+			w.Failf("C10.idle-peer."+c10Class(arg), "peer p1 is connected, unchoking and idle, piece %d is needed, not being written and not requested from anyone, yet no request is sent (downloads=%d)", i, s.PieceDownloaders)
+			return
+		}
+	}
+}
+
+func bytesReader(b []byte) *strings.Reader { return strings.NewReader(string(b)) }
 
 func TestC10(t *testing.T) {
 	ServeIfWorker(t)
 	rep := core.NewReport("C10", "lab-completion", "model_checking")
-	rep.Rule = "default (eager fair) schedule plus every single/double deviation"
+	rep.Rule = "layout lattice (16 KiB-scaled: single/multi file, empty files, leading/trailing/inner/whole-piece padding, piece length 16/32/48 KiB, odd sizes) x {rarest, sequential} x source {peer, web seed, both, real rain seeder over MSE}; each under the eager fair schedule (budget 0) and, on a subset with a second misbehaving peer / failing web seed, every single deviation (budget 1)"
+	rep.Assumptions = []string{"bounded liveness: completion within the horizon under the fair default continuation", "the other parties' misbehaviour is limited to the deviation alphabet (corrupt, stall, choke, disconnect, web seed 500/drop)"}
+	layouts := c10Layouts(core.Thorough())
 	var runs []Run
-	for i := range dlLayouts {
-		runs = append(runs, Run{Scenario: "dl", Arg: dlArg{Layout: i}, Budget: 1})
+	for _, l := range layouts {
+		for _, seq := range []bool{false, true} {
+			for _, src := range []string{"peer", "web", "both"} {
+				a := l
+				a.Seq, a.Source = seq, src
+				runs = append(runs, Run{Scenario: "c10", Arg: a, Budget: 0})
+			}
+		}
 	}
+	// real rain seeder, encryption negotiated between two real endpoints
+	for i, l := range layouts {
+		if i%7 == 0 {
+			a := l
+			a.Source = "rain"
+			runs = append(runs, Run{Scenario: "c10", Arg: a, Budget: 0})
+		}
+	}
+	// deviations by other parties
+	n := 0
+	for i, l := range layouts {
+		if i%9 != 0 {
+			continue
+		}
+		for _, src := range []string{"peer", "both"} {
+			a := l
+			a.Source, a.Adv = src, true
+			runs = append(runs, Run{Scenario: "c10", Arg: a, Budget: 1, MaxExec: 20000})
+			n++
+		}
+	}
+	rep.Extra["layouts"] = int64(len(layouts))
+	rep.Extra["runs"] = int64(len(runs))
 	Explore("TestC10", rep, runs)
 	rep.Finish()
 }
